@@ -1,5 +1,8 @@
 import Martian.Semaphore
 import Martian.SemaphoreSys
+import Martian.SemaphoreQueue
+import Martian.SemaphoreRefresh
+import Martian.SemaphoreMJP
 import Driver.Util
 
 /-! Line-protocol handler for property C12.
@@ -16,6 +19,21 @@ import Driver.Util
   then `|` and the number of actions taken.
 * `C12.norm  <maxCores,maxMemGB,maxVmemMB,threadsPerJob,memGBPerJob,extraVmemGB>  <memCur>  <vmemCur>  <centi,memMb,vmemMb>`
   Reply: `centi,memMb,vmemMb|cores,mem,vmem,procs` (normalised request | Acquire amounts).
+* `C12.queue  <grace>  <limit>  <jobs>  <events>`: the queue-query reconciliation
+  (Martian/SemaphoreQueue.lean). jobs `;`-separated `jobid:<0|1 has a job id>:<st>:<disk>` with states
+  `q r d f n`; events `,`-separated: `I<t>` queryQueue called, `A<t>:<hex of the command's stdout>` /
+  `A<t>:!` (command failed) the query finishes, `R<t>` refreshState, `P<jobid>:<st>` the job writes files.
+  Reply per event, `;`-separated: `<last|->|<ids in flight +-separated | ->|<st>/<since|->,…`.
+* `C12.mjp  <limit>  <ops>`: MaxJobsSemaphore with its callers (Martian/SemaphoreMJP.lean): `e<caller>:<job>:<w|q|r|o>:<0|1>` a new
+  Acquire, `u<caller>:<st>` a signalled caller re-runs the loop, `r<job>`, `f<job>.<job>…`, `c`, `Q<st of job 0><st of job 1>…` quiesce
+  (every signalled caller runs). Reply per op: `<|running|>:<parked callers .-separated>:<woken callers>:<T|F|-|!>`; for `Q` the last
+  field lists the callers that returned: `<caller>=<T|F>` `.`-separated (or `-`).
+* `C12.acq  <max,cur,reserved>  <waiting amounts | .>  <n>`: one `Acquire(n)` (id 0) on that state, reply as an entry of `C12.sem`.
+* `C12.cfgsizes  <maxCores,maxMemGB,maxVmemMB,threadsPerJob,memGBPerJob,extraVmemGB>  <procs left for jobs | ->  <cores,mem,vmem,procs amounts>`:
+  reply `<Sane 1/0>|<localSizes ,-separated>|<localAmounts ,-separated>`.
+* `C12.refresh  <mem|vmem|cores|procs>  <max,cur,reserved>  <waiting amounts ,-separated | .>  <actualFree,rss,vmem,procs,idleCenti,rlimCur,userProcs>`:
+  what `refreshResources` does to that semaphore (Martian/SemaphoreRefresh.lean; the vmem semaphore's limit is its max).
+  Reply as one entry of `C12.sem`: `cur:reserved:qlen:events` (waiters get the ids 1, 2, …).
 -/
 namespace Driver.C12
 open Martian.Semaphore
@@ -110,8 +128,164 @@ def parseJob (t : String) : Option (Nat × List Int) :=
 
 def b01 (b : Bool) : String := if b then "1" else "0"
 
+namespace QQ
+open Martian.SemaphoreQueue
+
+def parseJSt : String → Option JSt
+  | "q" => some .queued
+  | "r" => some .running
+  | "d" => some .done
+  | "f" => some .failed
+  | "n" => some .notQueued
+  | _ => none
+
+def showJSt : JSt → String
+  | .queued => "q"
+  | .running => "r"
+  | .done => "d"
+  | .failed => "f"
+  | .notQueued => "n"
+
+def parseJob (t : String) : Option Job :=
+  match t.splitOn ":" with
+  | [id, h, a, b] => do
+    let st ← parseJSt a
+    let dk ← parseJSt b
+    let hid ← (if h == "1" then some true else if h == "0" then some false else none)
+    pure ⟨id, hid, st, dk, none⟩
+  | _ => none
+
+def asciiOfBytes (bs : List UInt8) : String := String.ofList (bs.map fun b => Char.ofNat b.toNat)
+
+def parseEv (t : String) : Option Martian.SemaphoreQueue.Ev :=
+  if t.startsWith "I" then do let n ← (t.drop 1).toString.toNat?; pure (.issue n)
+  else if t.startsWith "R" then do let n ← (t.drop 1).toString.toNat?; pure (.refresh n)
+  else if t.startsWith "A" then
+    match (t.drop 1).toString.splitOn ":" with
+    | [a, b] => do
+      let n ← a.toNat?
+      if b == "!" then pure (.answer n none) else do
+        let bs ← Driver.bytesOfHex b
+        pure (.answer n (some (parseAnswer (asciiOfBytes bs))))
+    | _ => none
+  else if t.startsWith "P" then
+    match (t.drop 1).toString.splitOn ":" with
+    | [id, st] => do let d ← parseJSt st; pure (.progress id d)
+    | _ => none
+  else none
+
+def showOptNat : Option Nat → String
+  | none => "-"
+  | some n => toString n
+
+def showQ (s : Q) : String :=
+  showOptNat s.last ++ "|" ++
+  (match s.active with
+   | none => "-"
+   | some ids => "+".intercalate ids) ++ "|" ++
+  ",".intercalate (s.jobs.map fun j => showJSt j.st ++ "/" ++ showOptNat j.since)
+
+end QQ
+
+def showCallers (l : List Caller) : String := ".".intercalate (l.map fun c => toString c.1)
+
+def showMJP (s : MJP) (res : String) : String :=
+  s!"{s.running.length}:{showCallers s.parked}:{showCallers s.woken}:{res}"
+
+def tf (b : Bool) : String := if b then "T" else "F"
+
+/-- one textual op on the model with callers -/
+def mjpOp (s : MJP) (t : String) : Option (MJP × String) :=
+  if t.startsWith "Q" then
+    let sts := (t.drop 1).toString.toList.map fun ch => (parseSt (String.singleton ch)).getD .other
+    let stOf := fun (id : Nat) => sts.getD id .other
+    let r := MJP.quiesce stOf (s.woken.length + s.parked.length + 1) s []
+    let res := if r.2.isEmpty then "-" else ".".intercalate (r.2.map fun p => s!"{p.1}={tf p.2}")
+    some (r.1, showMJP r.1 res)
+  else
+    let op : Option MJPOp :=
+      if t == "c" then some .clear
+      else if t.startsWith "e" then
+        match (t.drop 1).toString.splitOn ":" with
+        | [a, b, c, d] => do
+          let w ← nat? a; let id ← nat? b; let st ← parseSt c
+          let nb ← (if d == "1" then some true else if d == "0" then some false else none)
+          pure (.enter w id st nb)
+        | _ => none
+      else if t.startsWith "u" then
+        match (t.drop 1).toString.splitOn ":" with
+        | [a, b] => do let w ← nat? a; let st ← parseSt b; pure (.resume w st)
+        | _ => none
+      else if t.startsWith "r" then do let id ← nat? (t.drop 1).toString; pure (.release id)
+      else if t.startsWith "f" then
+        let rest := (t.drop 1).toString
+        if rest == "" then some (.findDone []) else do
+          let ids ← (rest.splitOn ".").mapM nat?
+          pure (.findDone ids)
+      else none
+    op.map fun o =>
+      let r := s.step o
+      let res := if !r.valid then "!" else match r.ret with
+        | some b => tf b
+        | none => "-"
+      (r.st, showMJP r.st res)
+
+def mjpTrace : MJP → List String → Option (List String)
+  | _, [] => some []
+  | s, t :: ts => do
+    let r ← mjpOp s t
+    let rest ← mjpTrace r.1 ts
+    pure (r.2 :: rest)
+
+def withIds : Nat → List Int → List Waiter
+  | _, [] => []
+  | k, a :: as => (k, a) :: withIds (k + 1) as
+
 def handle (op : String) (args : List String) : Option String :=
   match op, args with
+  | "mjp", [limit, ops] => do
+    let l ← int? limit
+    let out ← mjpTrace (MJP.init l) (if ops == "." then [] else ops.splitOn ",")
+    pure (";".intercalate out)
+  | "acq", [st, ws, n] => do
+    let st ← ints? st
+    let ws ← (if ws == "." then some [] else ints? ws)
+    let n ← int? n
+    match st with
+    | [m, c, r] => pure (showStep (step ⟨m, c, r, withIds 1 ws⟩ (.acquire 0 n)))
+    | _ => none
+  | "cfgsizes", [cfg, procs, amts] => do
+    let c ← ints? cfg
+    let p ← (if procs == "-" then some none else (int? procs).map some)
+    let a ← ints? amts
+    match c, a with
+    | [a1, a2, a3, a4, a5, a6], [x, y, z, w] =>
+      let cfg : LocalCfg := ⟨a1, a2, a3, a4, a5, a6⟩
+      let show' := fun (l : List Int) => ",".intercalate (l.map toString)
+      pure s!"{b01 (saneB cfg)}|{show' (localSizes cfg p)}|{show' (localAmounts cfg p.isSome (x, y, z, w))}"
+    | _, _ => none
+  | "refresh", [kind, st, ws, obs] => do
+    let st ← ints? st
+    let ws ← (if ws == "." then some [] else ints? ws)
+    let ob ← ints? obs
+    match st, ob with
+    | [m, c, r], [af, rss, vm, pr, idle, rc, up] =>
+      let s : Sem := ⟨m, c, r, withIds 1 ws⟩
+      let o : Martian.SemaphoreRefresh.Obs := ⟨af, rss, vm, pr, idle, rc, up⟩
+      let sop ← (match kind with
+        | "mem" => some (Martian.SemaphoreRefresh.refreshMemOp o)
+        | "vmem" => some (Martian.SemaphoreRefresh.refreshVmemOp m o)
+        | "cores" => some (Martian.SemaphoreRefresh.refreshCoresOp o)
+        | "procs" => some (Martian.SemaphoreRefresh.refreshProcsOp o)
+        | _ => none)
+      pure (showStep (step s sop))
+    | _, _ => none
+  | "queue", [grace, limit, jobs, evs] => do
+    let g ← nat? grace
+    let l ← nat? limit
+    let js ← (jobs.splitOn ";").mapM QQ.parseJob
+    let es ← parseList QQ.parseEv evs
+    pure (";".intercalate ((Martian.SemaphoreQueue.trace ⟨g, l, none, none, js⟩ es).map QQ.showQ))
   | "sem", [size, ops] => do
     let m ← int? size
     let ops ← parseList parseSemOp ops
